@@ -80,47 +80,68 @@ def run(ctx):
                 break
             pi = rng.randrange(len(paras))
             par, p = paras[pi], pars[pi]
-            op = rng.choice(["set", "set", "add", "del"])
-            names_here = [f.name for f in par]
-            if op == "add":
-                cands = [n for n in rm.NAMES + ["Zz"] if lookup(par, n) < 0]
-                if not cands:
-                    continue
-                key = rng.choice(cands)
-                val = rng.choice(NEWVALS)
-                ops.append([pi, "add", key, val])
-                last = par[-1]
-                prefix = text[:last.end]
-                if not prefix.endswith("\n"):
-                    prefix += "\n"
-                suffix = text[last.end:]
-                tgt = p
-                if rng.random() < 0.3:
-                    tgt = p.configured_view(auto_resolve_ambiguous_fields=False)     # same semantics without duplicated fields
-                    ops[-1].append("view: auto_resolve_ambiguous_fields=False")
-                tgt[key] = val
-                model = [(f.name, f.value) for f in par] + [(key, norm(val))]
-            elif op == "set":
-                f = rng.choice(par)
-                key = rng.choice([f.name, f.name.upper(), f.name.lower()])
-                val = rng.choice(NEWVALS)
-                ops.append([pi, "set", key, val])
-                prefix, suffix = text[:f.start], text[f.end:]
-                tgt = p
-                if rng.random() < 0.3:
-                    tgt = p.configured_view(auto_resolve_ambiguous_fields=False)
-                    ops[-1].append("view: auto_resolve_ambiguous_fields=False")
-                tgt[key] = val
-                model = [(g.name, norm(val) if g is f else g.value) for g in par]
-            else:
-                if len(par) == 1:
-                    continue
-                f = rng.choice(par)
-                key = rng.choice([f.name, f.name.upper()])
-                ops.append([pi, "del", key])
-                prefix, suffix = text[:f.cstart], text[f.end:]
-                del p[key]
-                model = [(g.name, g.value) for g in par if g is not f]
+            try:
+                op = rng.choice(["set", "set", "add", "del"])
+                names_here = [f.name for f in par]
+                if op == "add":
+                    cands = [n for n in rm.NAMES + ["Zz"] if lookup(par, n) < 0]
+                    if not cands:
+                        continue
+                    key = rng.choice(cands)
+                    val = rng.choice(NEWVALS)
+                    ops.append([pi, "add", key, val])
+                    last = par[-1]
+                    prefix = text[:last.end]
+                    if not prefix.endswith("\n"):
+                        prefix += "\n"
+                    suffix = text[last.end:]
+                    tgt = p
+                    if rng.random() < 0.3:
+                        tgt = p.configured_view(auto_resolve_ambiguous_fields=False)     # same semantics without duplicated fields
+                        ops[-1].append("view: auto_resolve_ambiguous_fields=False")
+                    how = rng.random()
+                    if how < 0.2:
+                        # the inherited mapping methods are part of the dict interface
+                        ops[-1].append("via setdefault; get / pop of the missing name first")
+                        if tgt.get(key) is not None or tgt.get(key, "dflt") != "dflt" or tgt.pop(key, "gone") != "gone":
+                            raise AssertionError("get / pop of a missing field did not return the default")
+                        tgt.setdefault(key, val)
+                    else:
+                        tgt[key] = val
+                    model = [(f.name, f.value) for f in par] + [(key, norm(val))]
+                elif op == "set":
+                    f = rng.choice(par)
+                    key = rng.choice([f.name, f.name.upper(), f.name.lower()])
+                    val = rng.choice(NEWVALS)
+                    ops.append([pi, "set", key, val])
+                    prefix, suffix = text[:f.start], text[f.end:]
+                    tgt = p
+                    if rng.random() < 0.3:
+                        tgt = p.configured_view(auto_resolve_ambiguous_fields=False)
+                        ops[-1].append("view: auto_resolve_ambiguous_fields=False")
+                    if rng.random() < 0.15:
+                        ops[-1].append("key: the field's own name token; setdefault on the existing field first")
+                        tgt.setdefault(key, "ignored: the field exists")
+                        tgt[p.get_kvpair_element(key).field_token] = val
+                    else:
+                        tgt[key] = val
+                    model = [(g.name, norm(val) if g is f else g.value) for g in par]
+                else:
+                    if len(par) == 1:
+                        continue
+                    f = rng.choice(par)
+                    key = rng.choice([f.name, f.name.upper()])
+                    ops.append([pi, "del", key])
+                    prefix, suffix = text[:f.cstart], text[f.end:]
+                    if rng.random() < 0.2:
+                        ops[-1].append("via pop(name, default)")
+                        p.pop(key, None)
+                    else:
+                        del p[key]
+                    model = [(g.name, g.value) for g in par if g is not f]
+            except Exception as e:
+                ok = t.failed("an edit through the dict interface raised %r" % (e,), document=doc, operations=ops) and False
+                break
             try:
                 out = d.dump()
             except Exception as e:
